@@ -108,6 +108,13 @@ def run(ctx: Context) -> None:
                                   and len(m.args) == 1 and norm_text(m.args[0]) == da)
             ctx.check('R10.1', arg_ok and norm_text(subs[0].targets[0]) == 'values' and norm_text(subs[0].value.left) == 'values',
                       "the offset subtracted is this table's own start_index", ti, subs[0])
+            # the shift is applied whenever there is one to apply: unconditionally, or exactly under `start_index != 0`
+            si_ = norm_text(subs[0].value.right)
+            allowed_ = {(f"{si_} != 0", True), (f"{si_} == 0", False), (si_, True), (f"0 != {si_}", True), (f"0 == {si_}", False)}
+            about_ = [(t, inb) for t, inb in g if si_ in t]
+            ctx.check('R10.1', all(x in allowed_ for x in about_) and len(about_) == len(g) - len([1 for t, _ in g if si_ not in t]) and not [1 for t, _ in g if si_ not in t],
+                      "start_index is subtracted whenever it is not zero (a one-based table is always shifted, whatever else the file says)", ti, subs[0],
+                      construct=f"subtraction under {g or 'no condition'}")
         rets = ti.returns()
         ctx.check('R10.1', bool(rets) and all(norm_text(r.value) == 'values' for r in rets), "the normalised array is returned", ti, rets[0] if rets else ti.node)
         gs = ctx.func(f"{UGRID}._get_start_index")
@@ -493,6 +500,8 @@ from ..variants import V  # noqa: E402
 
 _U = 'src/emsarray/conventions/ugrid.py'
 VARIANTS = [
+    V('C10', 'one-based-not-shifted', 'src/emsarray/conventions/ugrid.py', "        if start_index != 0:\n            values = values - start_index", "        if start_index == 0:\n            values = values - start_index", 'R10.1'),
+    V('C10', 'benign-shift-unconditional', 'src/emsarray/conventions/ugrid.py', "        if start_index != 0:\n            values = values - start_index", "        values = values - start_index", None),
     V('C10', 'pair-dimension-any-size-two', _U, "        if self.has_edge_dimension:\n            for key in ['edge_node_connectivity', 'edge_face_connectivity']:\n                name = self.mesh_attributes.get(key)\n                if name in self.dataset.variables:\n                    for dimension in self.dataset.variables[name].dims:\n                        if dimension != self.edge_dimension and self.dataset.sizes[dimension] == 2:\n                            return dimension\n", "", 'R10.5'),
     V('C10', 'start-index-not-subtracted', _U, "        if start_index != 0:\n            values = values - start_index\n\n        return values", "        return values", 'R10.1'),
     V('C10', 'start-index-before-masking', _U, "        values = data_array.values\n\n        if not issubclass", "        values = data_array.values - _get_start_index(data_array)\n\n        if not issubclass", 'R10.1'),
